@@ -145,19 +145,19 @@ fn strand_body<const M: usize, const L: usize>() {
     crate::witness!(fwd > 0.0 && i == L - M, "finite positive score at the last position");
 }
 
-//@ C10 quick 900 rc involution + mirrored cells, count and scoring matrices, M=2, arbitrary cells
+//@ C10 quick 800 rc involution + mirrored cells, count and scoring matrices, M=2, arbitrary cells
 harness!(none, 24, c10_involution_m2, involution_body::<2>());
-//@ C10 quick 900 rc involution + mirrored cells, count and scoring matrices, M=3
+//@ C10 quick 800 rc involution + mirrored cells, count and scoring matrices, M=3
 harness!(none, 24, c10_involution_m3, involution_body::<3>());
-//@ C10 quick 1800 rc involution, frequency and weight matrices, M=2
+//@ C10 quick 800 rc involution, frequency and weight matrices, M=2
 harness!(none, 24, c10_involution_freq_m2, involution_freq_body::<2>());
-//@ C10 quick 3600 rc commutes with to_freq/to_scoring/to_weight, symmetric background, M=1 (counts <= 7)
+//@ C10 thorough 10800 rc commutes with to_freq/to_scoring/to_weight, symmetric background, M=1 (counts <= 7)
 log_harness!(8, c10_commute_m1, commute_body::<1>());
 //@ C10 thorough 10800 rc commutes with conversions, M=2
 log_harness!(8, c10_commute_m2, commute_body::<2>());
-//@ C10 quick 1800 opposite-strand score identity, M=2, L=5, symbolic matrix and sequence
+//@ C10 quick 800 opposite-strand score identity, M=2, L=5, symbolic matrix and sequence
 harness!(none, 8, c10_strand_m2_l5, strand_body::<2, 5>());
-//@ C10 quick 1800 opposite-strand score identity, M=3, L=6
+//@ C10 quick 800 opposite-strand score identity, M=3, L=6
 harness!(none, 8, c10_strand_m3_l6, strand_body::<3, 6>());
 //@ C10 thorough 3600 rc involution, M=1
 harness!(none, 24, c10_involution_m1, involution_body::<1>());
